@@ -43,6 +43,7 @@ def case_strategy():
         'form': st.sampled_from(FORMS),
         'sensor_type': st.sampled_from(['rate', 'increment']),
         'T': st.sampled_from([20.0, 40.0]),
+        't0': st.sampled_from([0.0, 0.0, 7.5, 300.0, -12.25]),
         'sub': st.integers(0, 2 ** 31 - 1),
     })
 
@@ -115,11 +116,11 @@ def run_truth(case, ctx):
     d = design_for(case)
     form, stype, T = case['form'], case['sensor_type'], case['T']
     ctx.label(f'form={form}', f'type={stype}', 'hemi=' + ('N' if case['lat0'] >= 0 else 'S') + ('E' if case['lon0'] >= 0 else 'W'),
-              f"speed={case['speed']}", f"att_amp={case['att_amp']}")
+              f"speed={case['speed']}", f"att_amp={case['att_amp']}", 't0=0' if case.get('t0', 0.0) == 0 else 't0!=0')
     res = {}
     for h in LADDER + [LADDER[-1] / 2]:
         n = int(round(T / h))
-        t = h * np.arange(n + 1)
+        t = case.get('t0', 0.0) + h * np.arange(n + 1)         # records need not start at time zero
         ev, tr, imu = synth(ctx, d, t, form, stype)
         res[h] = (ev, tr, imu, t)
     ulp_pos = np.spacing(max(abs(case['lat0']), abs(case['lon0']), 1.0)) * 111e3
